@@ -161,7 +161,7 @@ class C03(Check):
                  "of the compiled model against the real match/table code + spec oracle")
     level_text = ("Theorems: every history of add_entry / remove_entry / remove_matching_entries / remove_expired_entries keeps the table sorted by descending effective priority "
                   "with exact entries first, and entry_for_packet returns the highest-priority accepted entry / misses iff nothing is accepted (history_sorted, history_exact_first, "
-                  "history_lookup; add_position pins the insertion position among equal priorities); against the standard: code-match = standard-match on the extracted 12-tuple "
+                  "history_lookup; lookup_stateless: a lookup is a function of (table, frame), whatever was looked up before; add_position pins the insertion position among equal priorities); against the standard: code-match = standard-match on the extracted 12-tuple "
                   "(matches_iff), extraction = Figure 4 (extract_ok), lookup after any history = best matching flow currently installed (history_lookup_wire), "
                   "matches_with_wildcards(consider_other_wildcards=True) = subsumption over all header tuples (subsumes_iff), a flow built by from_packet/pack matches its packet and is "
                   "exact iff the packet is IPv4 TCP/UDP/ICMP (flow_from_packet_matches, flow_from_packet_exact_iff). The `_v` theorems state the same for every combination of the three "
@@ -169,7 +169,7 @@ class C03(Check):
     level_note = ("Trusted: Lean kernel, axioms propext/Classical.choice/Quot.sound, the hand-written models and the Spec transcription, this harness. "
                   "The theorems are about the model; the per-run correspondence (all 2^10 wildcard combinations, prefix counters 0..63, structured frames, tables to 40 entries, "
                   "operation histories to 90 calls, packet->flow round trips) is what ties it to the code.")
-    rule = ("case = one frame x a batch of transmitted/local matches | a table of <=40 flow entries x frames | a history of <=90 table operations with lookups in between | "
+    rule = ("case = one frame x a batch of transmitted/local matches | a table of <=40 flow entries x frames | a history of <=90 table operations with lookups in between | sequences of lookups on one unchanged table (frames differing in exactly one of the 12 fields or in fragmentation, both orders, A-B-A triples, entries discriminating on that field; each answer also compared with a fresh copy of the table) | "
             "a packet->from_packet->pack->unpack->lookup round trip | subsumption pairs; corpus = all 1024 flag combinations x prefix counters x at/near values on 9 fixed frames + "
             "prefix sweeps 0..63 + defect witnesses + 8 fixed histories; non-trivial = a batch with both outcomes / a table or history with a hit / a round trip of a frame with L3 or VLAN")
     coverage_cases = 200
@@ -188,8 +188,10 @@ class C03(Check):
         self.anchors = self.compute_anchors()
         self.variant = self.detect_variant()
 
-    # which of the proposed repairs (fixes/C03_D26/D37/D38) the tree under test has: read off the source, statement shapes
-    # pattern-checked (an unrecognised shape is an error, not a guess); the correspondence run then validates the model chosen
+    # Which of the repairs D26/D37/D38 the tree under test has (Model/MatchV.lean `Variant`).  Decided by BEHAVIOUR on the three witness
+    # inputs of the findings (so that a behaviour-preserving refactoring of the code cannot confuse it); the statement shapes in the
+    # source are only a cross-check: a known shape that contradicts the probe is an error.  Whatever is chosen, the correspondence run
+    # validates it on every case.
     VARIANT_SHAPES = {
         "arpLow8": ("from_packet", {
             False: "if p.opcode <= 255:\n    match.nw_proto = p.opcode\n    match.nw_src = p.protosrc\n    match.nw_dst = p.protodst",
@@ -202,25 +204,55 @@ class C03(Check):
             True: "dl_type = None if wildcards & OFPFW_DL_TYPE else self._dl_type\nnw_proto = None if wildcards & OFPFW_NW_PROTO else self._nw_proto\n"
                   "if dl_type == 2048:\n    if nw_proto not in (1, 6, 17):"})}
 
-    def detect_variant(self):
+    def probe_variant(self):
+        """the three witnesses, on the real code"""
+        of = self.of
+        arp257 = bytes.fromhex("000000000002" "000000000001" "0806" "0001" "0800" "06" "04" "0101" "000000000001" "0a000001" "000000000000" "0a000002")
+        pm = of.ofp_match.from_packet(self.pkt.ethernet(arp257), 1, spec_frags=True)
+        if pm.nw_proto == 1 and pm.nw_src is not None: arp = True
+        elif pm.nw_proto is None and pm.nw_src is None: arp = False
+        else: raise RuntimeError("from_packet on ARP opcode 257: nw_proto=%r (neither known behaviour)" % (pm.nw_proto,))
+        r = [mkwild([f for f in FLAG_FIELDS if f != PROTO], 32, 32)] + [0] * 12; r[DL_TYPE] = 0x0800; r[PROTO] = 7
+        m = of.ofp_match(); m.unpack(pack_rec(r), 0, flow_mod=True)
+        nwp = (m.wildcards >> BIT[PROTO]) & 1
+        ex = [0, 1, 1, 2, 0xffff, 0, 0x0806, 0, 1, 0x0a000001, 0x0a000002, 0, 0]
+        m2 = of.ofp_match(); m2.unpack(pack_rec(ex), 0, flow_mod=True)
+        return {"arpLow8": arp, "prereqExact": bool(nwp), "exactSig": bool(m2.is_exact)}
+
+    def shape_variant(self):
+        """flag -> True/False when the source has one of the two known statement shapes, else None"""
         import ast, os
-        tree = ast.parse(open(os.path.join(common.REPO, "pox/openflow/libopenflow_01.py")).read())
-        cls = [n for n in tree.body if isinstance(n, ast.ClassDef) and n.name == "ofp_match"][0]
-        fns = {f.name: f for f in cls.body if isinstance(f, ast.FunctionDef)}
         out = {}
+        try:
+            tree = ast.parse(open(os.path.join(common.REPO, "pox/openflow/libopenflow_01.py")).read())
+            cls = [n for n in tree.body if isinstance(n, ast.ClassDef) and n.name == "ofp_match"][0]
+            fns = {f.name: f for f in cls.body if isinstance(f, ast.FunctionDef)}
+        except Exception:
+            return {k: None for k in self.VARIANT_SHAPES}
         for flag, (fn, shapes) in self.VARIANT_SHAPES.items():
-            body = fns[fn].body
+            out[flag] = None
+            if fn not in fns: continue
             if flag == "arpLow8":            # the body of `elif isinstance(p, arp):`
                 node = [n for n in ast.walk(fns[fn]) if isinstance(n, ast.If) and ast.unparse(n.test) == "isinstance(p, arp)"]
-                if len(node) != 1: raise RuntimeError("from_packet: ARP branch not found")
+                if len(node) != 1: continue
                 text = "\n".join(ast.unparse(x) for x in node[0].body)
             else:
-                stmts = [x for x in body if not (isinstance(x, ast.Expr) and isinstance(getattr(x, "value", None), ast.Constant))]
+                stmts = [x for x in fns[fn].body if not (isinstance(x, ast.Expr) and isinstance(getattr(x, "value", None), ast.Constant))]
                 text = "\n".join(ast.unparse(x) for x in stmts)
             hits = [k for k, shape in shapes.items() if text.startswith(shape)]
-            if len(hits) != 1: raise RuntimeError("ofp_match.%s has a shape the C03 model does not know:\n%s" % (fn, text[:300]))
-            out[flag] = hits[0]
-        return [out["arpLow8"], out["prereqExact"], out["exactSig"]]
+            if len(hits) == 1: out[flag] = hits[0]
+        return out
+
+    def detect_variant(self):
+        probe, shape = self.probe_variant(), self.shape_variant()
+        for k, v in shape.items():
+            if v is not None and v != probe[k]:
+                raise RuntimeError("ofp_match: the source has the %s shape of repair %s but behaves otherwise on the witness input" % (v, k))
+        self.variant_source = {k: ("shape+probe" if shape[k] is not None else "probe") for k in probe}
+        return [probe["arpLow8"], probe["prereqExact"], probe["exactSig"]]
+
+    def extra_evidence(self):
+        return {"code_variant": dict(zip(["arpLow8", "prereqExact", "exactSig"], self.variant)), "code_variant_decided_by": self.variant_source}
 
     def compute_anchors(self):
         import ast, os
